@@ -6,7 +6,8 @@ from checklib import Scenario
 RULE = ("integer literals: every type limit +-2 in decimal, octal and hexadecimal (both cases, optional sign), 33..65-bit "
         "magnitudes, random literals of 1..25 digits; booleans: all strings up to length 3 (quick) / 5 (thorough) over an "
         "alphabet holding every letter of the six words and their djb2 neighbours, plus random longer strings; decimal "
-        "floating literals against an exact rational model of correct rounding; bare keys from parsed files; "
+        "floating literals against an exact rational model of correct rounding; bare keys from parsed files; mixed sequences "
+        "(every getter kind after every other on literals of all families, incl. conversions that leave errno set) compared with the model; "
         "each text is stored with econf_setStringValue and read with every typed getter; the expected result is computed "
         "independently in Python (int(text, base) / exact rounding); distinct by text")
 
@@ -106,7 +107,7 @@ def gen(rng, tier):
                 for kd in kinds:
                     cmds.append("get 0 %s - x6b -" % kd); obs.append(True)
             out.append(Scenario(cmds, obs, tags=(tag,)))
-    batch(int_literals(rng, 600 if tier == "quick" else 60000), ["int", "int64", "uint", "uint64"], "lit")
+    batch(int_literals(rng, 1800 if tier == "quick" else 60000), ["int", "int64", "uint", "uint64"], "lit")
     # booleans: exhaustive short strings
     import itertools
     maxlen = 3 if tier == "quick" else 5
@@ -121,7 +122,21 @@ def gen(rng, tier):
             strs += [bytes(t) for t in itertools.product(alpha, repeat=n)]
     strs += [b"yes", b"Yes", b"NO", b"true", b"False", b"FALSE", b"p-", b"g@lse", b"_none_", b"yes ", b" no", b"truee", b"on", b"off"]
     batch(strs, ["bool"], "bool")
-    batch(float_literals(rng, 300 if tier == "quick" else 30000), ["float", "double"], "flit")
+    batch(float_literals(rng, 900 if tier == "quick" else 30000), ["float", "double"], "flit")
+    # every getter after every other: the result of a conversion must not depend on the conversions before it
+    # (errno left behind by an earlier strto* call, cached state): literals of all families, getters in random order
+    ints = int_literals(rng, 300 if tier == "quick" else 20000); flts = float_literals(rng, 200 if tier == "quick" else 10000)
+    pool = ints + flts + [b"99999999999999999999999", b"-99999999999999999999999", b"18446744073709551616", b"1e-320", b"1e400", b"4.9e-324",
+                          b"0", b"42", b"-9223372036854775808", b"9223372036854775807", b"0x7fffffffffffffff", b"yes", b"maybe", b""]
+    allk = ["int", "int64", "uint", "uint64", "float", "double", "bool", "string"]
+    for _ in range(120 if tier == "quick" else 8000):
+        cmds, obs = ["newini 0"], [False]
+        keys = [b"k%d" % j for j in range(4)]
+        for k in keys:
+            cmds.append("set 0 string - %s %s 0" % (enc(k), enc(rng.choice(pool)))); obs.append(False)
+        for _ in range(rng.randrange(8, 30)):
+            cmds.append("get 0 %s - %s -" % (rng.choice(allk), enc(rng.choice(keys)))); obs.append(True)
+        out.append(Scenario(cmds, obs, tags=("mixed",)))
     # bare keys: no value at all
     out.append(Scenario([gens.parse_cmd(0, b"/d/bare.conf", b"k\nk2=\n[s]\nk3\n", b"=", b"#"), "getall 0"], [False, True], tags=("bare",)))
     return out
